@@ -963,7 +963,9 @@ class Parser:
         verbose: bool = False,
     ) -> ast.Module | None:
         """Parse a file or string."""
-        with open(path) as f:
+        # like CPython: source files are UTF-8 whatever the locale; no newline translation, so that
+        # lines (and positions) are exactly those of parse_string on the same text
+        with open(path, encoding="utf-8", newline="\n") as f:
             tok_stream = generate_tokens(f.readline)
             tokenizer = Tokenizer(tok_stream, verbose=verbose, path=str(path))
             parser = cls(
